@@ -1364,7 +1364,7 @@ static size_t thread_size(parsec_profiling_stream_t *thread)
     for(i = thread->infos; NULL!=i; i = i->next) {
         ks = strlen(i->key);
         vs = strlen(i->value);
-        if( s + ks + vs + sizeof(parsec_profiling_info_buffer_t) - 1 > event_avail_space ) {
+        if( s + ks + vs + sizeof(parsec_profiling_info_buffer_t) - 1 >= event_avail_space ) {
             set_last_error("Profiling system: warning: unable to save info %s of thread %s, info ignored\n",
                            i->key, thread->hr_id);
             continue;
